@@ -129,6 +129,8 @@ def check(rep, tier, seed):
         rep.functions_encoded.append(wpath + "::{closure#0}")
         n_op = 0
         for i, r in enumerate(ps):
+            if r.status == "panic":
+                continue      # lock().unwrap() on a poisoned mutex: only after another thread panicked (C13's subject)
             gb = [e for e in r.events if e.kind == "await" and e.callee.endswith("get_bpf_object")]
             ops = [e for e in r.events if e.kind == "call" and e.callee.endswith("BpfObject::" + op)]
             if ops:
